@@ -134,37 +134,39 @@ Definition tops_of_impl (i : impl_out) : list xval :=
   match i with ILoaded mods _ _ _ _ => mods | _ => [] end.
 
 (* every importable entity of module m, looked up the way a USE of B does, in FORD's own objects *)
-Definition links_ok (idf : nat -> str) (b : base) (impl_mods : list xval) (m : ent) : bool :=
+Definition links_ok (idf : nat -> str) (disp : list perm) (b : base) (impl_mods : list xval) (m : ent) : bool :=
   match find_first (e_name m) (map IExt impl_mods) with
   | Ok (Some (HExt xm)) =>
     json_eq (x_url xm) (match module_url idf m with Some u => JStr (spec_join b u) | None => JNull end)
     (* path by path: every object under the module, at the path of an entity of A, has that entity's URL *)
     && path_ok idf b None None m xm
-    (* ... and so has everything under the objects a USE imports *)
+    (* ... and so has every object a USE imports, with everything under it; an importable entity that A
+       displays must be there, one that A does not display may be missing (that costs only the link) *)
     && forallb (fun e => if importable e
                          then match pub_class (e_kind e) with
                               | Some c => match used_lookup xm c (e_name e) with
                                           | Ok (Some x) => path_ok idf b (Some (e_kind m)) (module_url idf m) e x
-                                          | _ => false
+                                          | Ok None => negb (shown disp e)
+                                          | Err _ => false
                                           end
                               | None => true
                               end
                          else true) (e_kids m)
-    && forallb (fun t => match t with
-                         | (c, n, u) => match used_lookup xm c n with
-                                        | Ok (Some x) => json_eq (x_url x) (JStr u)
-                                        | _ => false
-                                        end
-                         end) (expected_links idf b m)
   | _ => false
   end.
 
-(* every importable entity's page is among the files A wrote *)
-Definition targets_written (idf : nat -> str) (pages : list str) (m : ent) : bool :=
+(* every entity that the description [impl] names in a table of public names of module m has its page
+   among the files A wrote (no dead link can come out of the description) *)
+Definition targets_written (idf : nat -> str) (pages : list str) (impl : json) (m : ent) : bool :=
+  let jm := hd JNull (filter (fun j => str_eqb (jname j) (e_name m)) (jlist (jget (s "modules") impl))) in
   match module_url idf m with Some u => str_in (page_of u) pages | None => false end
-  && forallb (fun e => if importable e
-                       then match kid_url idf m e with Some u => str_in (page_of u) pages | None => false end
-                       else true) (e_kids m).
+  && forallb (fun e => match pub_class (e_kind e) with
+                       | Some c =>
+                         if str_in (lower (e_name e)) (jkeys (jget c jm))
+                         then match kid_url idf m e with Some u => str_in (page_of u) pages | None => false end
+                         else true
+                       | None => true
+                       end) (e_kids m).
 
 (* a look-up answered with an imported entity although B defines the name *)
 Definition answer_local_first (B : blocal) (q : query) (a : answer) : bool :=
@@ -184,13 +186,15 @@ Definition judge (c : case) : nat :=
   | CExport A impl pages =>
     let idf := ident_of A in
     let exact := exact_on (a_modules A) impl in
-    let written := forallb (targets_written idf pages) (a_modules A) in
+    let written := forallb (targets_written idf pages impl) (a_modules A) in
     verdict (negb (json_eq (export A []) impl) || negb (same_set (pages_written A) pages))
             (negb exact || negb written)
-            (if display_default (c_display (a_cfg A)) then 0 else 1)
+            (* a dead link is a violation whatever the display; the description following `display` in its
+               lists of names is the recorded finding *)
+            (if negb written then 0 else if display_default (c_display (a_cfg A)) then 0 else 1)
   | CRound A b impl =>
     verdict (negb (out_matches (of_res (load_json b (export A []))) impl))
-            (negb (forallb (links_ok (ident_of A) b (tops_of_impl impl)) (a_modules A)))
+            (negb (forallb (links_ok (ident_of A) (c_display (a_cfg A)) b (tops_of_impl impl)) (a_modules A)))
             0
   | CLoad src mutated impl B qs =>
     let o := load src in
